@@ -1,5 +1,5 @@
 (* C12 - transfer callbacks bracket and count the transfer; cancellation stops and aborts. *)
-From LibFtp Require Import Bytes Reply Endpoint Ascii DataConn DataConn_Proofs Client Client_Proofs Login_Proofs Transfer_Proofs Transfer_More Transfer_Cb.
+From LibFtp Require Import Bytes Reply Endpoint Ascii DataConn DataConn_Proofs Client Client_Proofs Login_Proofs Transfer_Proofs Transfer_More Transfer_Cb Abor_Global.
 Local Open Scope N_scope.
 
 (* upload: poll first; cancelled at once => nothing else happens (no begin, no end, no byte);
@@ -131,3 +131,24 @@ Theorem C12_cancelled_upload_aborts : forall w u path chunks answers answers' an
     io_events (skipn (length (w_trace w)) (w_trace w')) = ev ++ [IoPoll true].
 Proof. exact upload_cancelled_passive. Qed.
 Print Assumptions C12_cancelled_upload_aborts.
+
+(* ------------------------------------------------------------------ every call, every state, every server *)
+(* [okab false tr]: in the events tr a call adds to the trace, the line ABOR is written only when the most recent poll of the
+   transfer callback in this call ([EIo (IoPoll b)]) answered "cancelled": the library never aborts a transfer on its own
+   initiative, and no other call writes ABOR (the raw command interface with the caller's own verb "ABOR" excepted) *)
+Theorem C12_abor_only_when_the_callback_cancelled : forall a w, not_raw_abor a ->
+  exists tr, w_trace (snd (step w a)) = w_trace w ++ tr /\ okab false tr.
+Proof. exact step_abor_only_when_cancelled. Qed.
+Print Assumptions C12_abor_only_when_the_callback_cancelled.
+
+Theorem C12_abor_follows_a_cancelling_poll : forall a w tr pre s o post, not_raw_abor a ->
+  w_trace (snd (step w a)) = w_trace w ++ tr -> tr = pre ++ EWire s o ABOR_ :: post -> abafter false pre = true.
+Proof. exact abor_follows_a_cancelling_poll. Qed.
+Print Assumptions C12_abor_follows_a_cancelling_poll.
+
+Example C12_abor_example :
+  let run_it cb := w_trace (snd (steps (init_world (mkConfig Passive true TBinary false false) abor_script)
+                                       [AConnect [104%N] 21%N None; ADownload [102%N] cb None])) in
+  abor_count (run_it (Some [false; false; true; true])) = 1%nat /\ abor_count (run_it (Some [false; false; false; false; false; false])) = O /\
+  okab false (run_it (Some [false; false; true; true])).
+Proof. exact abor_example. Qed.
